@@ -1,8 +1,11 @@
-(* RustRt2/Differs.v — outside the hypotheses rt_pre: where generated Rust differs from the contract (and from the VM, which
-   refines the contract there); one witness per hypothesis, replayed on the real runtime by checks/rtpl_part.py.  The first
-   two are reached by compiled programs (confirmed on the real compiler; see the report of this part):
-     fn dsp(){ let a = [10.0,20.0,30.0]  let z = 0.0  a[1.0/z] }     VM and WASM 30.0, generated Rust 10.0
-     fn dsp(){ let a = [(1.0,2.0),(3.0,4.0)]  len(a) }                VM and WASM 2.0,  generated Rust 4.0 *)
+(* RustRt2/Differs.v — witnesses.
+   REPAIRED differences (regression: the statements now say AGREEMENT; checks/rtpl_part.py replays them on the real runtime
+   and corpus/C18/cases.jsonl holds the two programs):
+     R1  fn dsp(){ let a = [10.0,20.0,30.0]  let z = 0.0  a[1.0/z] }     VM and WASM 30.0, generated Rust gave 10.0
+         (rustgen.rs mapped every non-finite index to element 0)
+     R2  fn dsp(){ let a = [(1.0,2.0),(3.0,4.0)]  len(a) }                VM and WASM 2.0,  generated Rust gave 4.0
+         (the template's `len` counted words)
+   Remaining differences outside the hypotheses rt_pre: the zero array handle, float bits that are a memory handle (F22). *)
 From Coq Require Import List ZArith NArith Bool.
 From Mimium Require Import Lmmm.Machine Prims.Float Prims.Spec Prims.Impl Prims.Vm Prims.Pre
   RustRt.Model RustRt2.Model RustRt2.Ops.
@@ -15,21 +18,21 @@ Definition F30 : word := 4629137466983448576.   (* 30.0 *)
 
 Definition w_inf : list op := [OArrayNew 1 [VNum F10; VNum F20; VNum F30]; OArrayGet (VArr 0) F64_PINF 1].
 
-Lemma index_infinity_differs :
+Lemma index_infinity_agrees :
   spec_run (spec_init 0 0 0) w_inf = [SArrH 0; SVals [VNum F30]] /\
   vm_run 0 w_inf = [IHandle 4294967297; IWords [F30]] /\
-  tpl_run (map XBase w_inf) = [IHandle 1; IWords [F10]] /\
-  xpre_run rt_pre (spec_init 0 0 0) (map XBase w_inf) = false /\
+  tpl_run (map XBase w_inf) = [IHandle 1; IWords [F30]] /\
+  xpre_run rt_pre (spec_init 0 0 0) (map XBase w_inf) = true /\
   pre_run vm_pre (spec_init 0 0 0) w_inf = true.
 Proof. vm_compute. repeat split; reflexivity. Qed.
 
 Definition w_len2 : list op := [OArrayNew 2 [VNum 1; VNum 2; VNum 3; VNum 4]; OArrayLen (VArr 0)].
 
-Lemma len_words_differs :
+Lemma len_counts_elements :
   spec_run (spec_init 0 0 0) w_len2 = [SArrH 0; SVals [VNum (f64_of_N 2)]] /\
   vm_run 0 w_len2 = [IHandle 4294967297; IWords [f64_of_N 2]] /\
-  tpl_run (map XBase w_len2) = [IHandle 1; IWords [f64_of_N 4]] /\
-  xpre_run rt_pre (spec_init 0 0 0) (map XBase w_len2) = false /\
+  tpl_run (map XBase w_len2) = [IHandle 1; IWords [f64_of_N 2]] /\
+  xpre_run rt_pre (spec_init 0 0 0) (map XBase w_len2) = true /\
   pre_run vm_pre (spec_init 0 0 0) w_len2 = true.
 Proof. vm_compute. repeat split; reflexivity. Qed.
 
